@@ -10,7 +10,9 @@ import concurrent.futures as cf
 VERIF = os.path.dirname(os.path.dirname(os.path.abspath(__file__)))
 REPO = os.environ.get('NAUTILUS_VERIF_REPO', '/repo')
 SPEC = os.path.join(VERIF, 'spec')
-EVID = os.path.join(VERIF, 'evidence')
+# evidence/<id>.json describes runs against /repo itself; a run against another tree (a scratch worktree with a
+# seeded change, via NAUTILUS_VERIF_REPO) writes to a side directory so that it can never be mistaken for it
+EVID = os.path.join(VERIF, 'evidence') if os.path.realpath(REPO) == '/repo' else os.path.join(VERIF, 'evidence', '_other_tree')
 NCPU = min(16, os.cpu_count() or 1)
 
 for _v in ('OMP_NUM_THREADS', 'OPENBLAS_NUM_THREADS', 'MKL_NUM_THREADS', 'NUMEXPR_NUM_THREADS'):
